@@ -38,6 +38,17 @@ package revision
 //@   assert [C15:established-for-this-revision] $parent == $pr && ($control <==> $pr.GetDesiredState() == "Active")
 //@ optional site (xpkg.PackageCache).Delete(_, $k)
 //@   assert [C15:cache-entry-named-after-revision-or-source] $k == $pr.GetName() || ($pr.GetPackagePullPolicy() != nil && *$pr.GetPackagePullPolicy() == "Never" && $k == $pr.GetSource())
+//@   update cacheCleared = true
+// A cache entry that could not be read back, or whose write failed (the error arrives on the
+// cacheWrite channel), is always removed in the same reconcile - whether or not parsing
+// succeeded - so a partial entry is never what a later reconcile installs from.
+//@ ghost cacheBroken bool = false
+//@ ghost cacheCleared bool = false
+//@ optional site (xpkg.PackageCache).Get(_, $k)
+//@   update cacheBroken = cacheBroken || err != nil
+//@ site builtin.recv($ch)
+//@   update cacheBroken = cacheBroken || result != nil
+//@ ensures [C15:broken-cache-entry-is-removed] cacheBroken ==> cacheCleared
 
 //@ func (*revision.PackageDependencyManager).RemoveSelf
 //@ props C08
